@@ -267,6 +267,16 @@ pub struct FaultCfg {
     pub tick_jitter_ns: u64,
 }
 
+/// A systematic corruption applied to every ICMP datagram the network delivers (C04 sweep).
+#[derive(Debug, Clone, Copy, PartialEq, Eq)]
+pub struct Mutation {
+    /// Which length / offset / type field is overwritten (see `net::MUT_FIELDS`).
+    pub field: u8,
+    pub value: u32,
+    /// Truncate the datagram to this many octets (after the field rewrite).
+    pub trunc: Option<u16>,
+}
+
 #[derive(Debug, Clone, PartialEq, Eq)]
 pub struct Scenario {
     pub tracer: TracerCfg,
@@ -277,6 +287,10 @@ pub struct Scenario {
     pub stable: bool,
     /// Keep the per-round records small (long C07 runs).
     pub light: bool,
+    /// Systematic corruption of every delivered ICMP datagram (C04 sweep).
+    pub mutation: Option<Mutation>,
+    /// Run the passive sniffer over every datagram handed to the tracer.
+    pub sniff: bool,
 }
 
 fn layout_json(l: &ErrorLayout) -> Value {
@@ -352,6 +366,7 @@ impl Scenario {
                 "tick_jitter_ns": self.faults.tick_jitter_ns,
             },
             "stable": self.stable,
+            "mutation": self.mutation.map(|m| format!("{m:?}")),
         })
     }
 }
